@@ -10,6 +10,8 @@ real r and t (no sign or range restriction is needed: the map only has to cancel
 import EPV.Gen.Noh
 import EPV.Lemmas.Bridge.Noh
 import EPV.Gen.Cog19
+import EPV.Lemmas.Bridge.Cog19
+import EPV.Lemmas.HydroRobust
 import EPV.Tactics
 
 set_option linter.all false
@@ -43,10 +45,15 @@ theorem noh_fields_similar (p : Noh.P) (r t s : ℝ) (hs : 0 < s) :
     Noh.velocity p (s * r) (s * t) = Noh.velocity p r t ∧
     Noh.pressure p (s * r) (s * t) = Noh.pressure p r t ∧
     Noh.specific_internal_energy p (s * r) (s * t) = Noh.specific_internal_energy p r t := by
-  have hq : |p.u0| * (s * t) / (s * r) = |p.u0| * t / r := by
-    rw [show |p.u0| * (s * t) = s * (|p.u0| * t) by ring, mul_div_mul_left _ _ hs.ne']
+  have hs' := hs.ne'
   simp only [epv_tree, noh_cond_similar p r t s hs]
-  refine ⟨?_, ?_, ?_, ?_⟩ <;> split_ifs <;> simp only [epv_leaf, hq]
+  -- r = 0: every quotient by r is 0 on both sides; r ≠ 0: the factor s cancels in every quotient
+  by_cases hr : r = 0
+  · subst hr
+    refine ⟨?_, ?_, ?_, ?_⟩ <;> split_ifs <;>
+      simp only [epv_leaf, mul_zero, zero_mul, div_zero, zero_div, sub_zero, zero_sub, add_zero, zero_add] <;>
+      epv_hydro_closed
+  · refine ⟨?_, ?_, ?_, ?_⟩ <;> split_ifs <;> simp only [epv_leaf] <;> epv_hydro_closed
 
 /-- the returned position is the input position: it scales with s -/
 theorem noh_position_similar (p : Noh.P) (r t s : ℝ) (hs : 0 < s) :
@@ -60,7 +67,7 @@ example : ∃ s : ℝ, 0 < s := ⟨2, by norm_num⟩
 
 theorem cog19_cond_similar (p : Cog19.P) (r t s : ℝ) (hs : 0 < s) :
     Cog19.c0 p (s * r) (s * t) ↔ Cog19.c0 p r t := by
-  simp only [epv_cond]
+  rw [EPV.Bridge.cog19_c0_iff, EPV.Bridge.cog19_c0_iff]
   rw [show -(p.gamma - 1) * p.u0 * (s * t) / 2 = s * (-(p.gamma - 1) * p.u0 * t / 2) by ring]
   exact mul_lt_mul_iff_of_pos_left hs
 
@@ -78,10 +85,15 @@ theorem cog19_fields_similar (p : Cog19.P) (r t s : ℝ) (hs : 0 < s) :
     Cog19.temperature p (s * r) (s * t) = Cog19.temperature p r t ∧
     Cog19.pressure p (s * r) (s * t) = Cog19.pressure p r t ∧
     Cog19.specific_internal_energy p (s * r) (s * t) = Cog19.specific_internal_energy p r t := by
-  have hq : (s * r - p.u0 * (s * t)) / (s * r) = (r - p.u0 * t) / r := by
-    rw [show s * r - p.u0 * (s * t) = s * (r - p.u0 * t) by ring, mul_div_mul_left _ _ hs.ne']
+  have hs' := hs.ne'
   simp only [epv_tree, cog19_cond_similar p r t s hs]
-  refine ⟨?_, ?_, ?_, ?_, ?_⟩ <;> split_ifs <;> simp only [epv_leaf, hq]
+  -- r = 0: every quotient by r is 0 on both sides; r ≠ 0: the factor s cancels in every quotient
+  by_cases hr : r = 0
+  · subst hr
+    refine ⟨?_, ?_, ?_, ?_, ?_⟩ <;> split_ifs <;>
+      simp only [epv_leaf, mul_zero, zero_mul, div_zero, zero_div, sub_zero, zero_sub, add_zero, zero_add] <;>
+      epv_hydro_closed
+  · refine ⟨?_, ?_, ?_, ?_, ?_⟩ <;> split_ifs <;> simp only [epv_leaf] <;> epv_hydro_closed
 
 theorem cog19_position_similar (p : Cog19.P) (r t s : ℝ) (hs : 0 < s) :
     Cog19.position p (s * r) (s * t) = s * Cog19.position p r t := by
